@@ -1,11 +1,14 @@
 package main
 
 import (
+	"reflect"
 	"fmt"
 	"strings"
 
 	"github.com/llir/llvm/asm"
 	"github.com/llir/llvm/ir"
+	"github.com/llir/llvm/ir/constant"
+	"github.com/llir/llvm/ir/types"
 )
 
 // moduleSource builds a fresh, never-printed module every time Build is called;
@@ -45,7 +48,7 @@ func genSource(name string) *moduleSource {
 		if _, err := fmt.Sscanf(name, "gen:%d:%d", &seed, &size); err != nil {
 			return nil, fmt.Errorf("bad generated module name %q", name)
 		}
-		p := genProgram(newRNG(seed), genParams{Steps: size, Metadata: true})
+		p := genProgram(newRNG(seed), genParams{Steps: size, Metadata: true, Literal: strings.HasSuffix(name, ":lit")})
 		m, _, err := runProgramAlone(p)
 		return m, err
 	}}
@@ -69,12 +72,45 @@ func moduleSources(seed uint64, tier string) []*moduleSource {
 	for i := 0; i < n; i++ {
 		out = append(out, genSource(fmt.Sprintf("gen:%d:%d", r.u64()%1000000, 10+r.intn(50))))
 	}
+	// Constructed modules whose instructions are struct literals (Typ unset).
+	for i := 0; i < n/3; i++ {
+		out = append(out, genSource(fmt.Sprintf("gen:%d:%d:lit", r.u64()%1000000, 10+r.intn(50))))
+	}
 	return out
+}
+
+// fixedSources are small modules built by hand (independent of the generator),
+// used by pinned tapes.
+var fixedSources = map[string]func() *ir.Module{
+	// One function whose only value instruction is a struct literal with Typ
+	// unset: %sum = add i32 %a, 1; store i32 %sum, i32* %p; ret i32 %sum.
+	"fixed:literal-block": func() *ir.Module {
+		m := ir.NewModule()
+		f := m.NewFunc("f", types.I32, ir.NewParam("a", types.I32), ir.NewParam("p", types.NewPointer(types.I32)))
+		b := f.NewBlock("entry")
+		sum := &ir.InstAdd{X: f.Params[0], Y: constant.NewInt(types.I32, 1)}
+		sum.SetName("sum")
+		st := &ir.InstStore{Src: sum, Dst: f.Params[1]}
+		b.Insts = append(b.Insts, sum, st)
+		b.Term = &ir.TermRet{X: sum}
+		return m
+	},
+}
+
+func fixedSource(name string) *moduleSource {
+	build := fixedSources[name]
+	if build == nil {
+		return nil
+	}
+	return &moduleSource{Name: name, Build: func() (*ir.Module, error) { return build(), nil }}
 }
 
 func findSource(name string) *moduleSource {
 	if strings.HasPrefix(name, "gen:") {
 		return genSource(name)
+	}
+	if strings.HasPrefix(name, "fixed:") {
+		return fixedSource(name)
 	}
 	for _, cf := range corpus() {
 		if cf.Name == name {
@@ -90,11 +126,29 @@ func init() {
 		r := newRNG(*flagSeed)
 		for i := int64(0); i < *flagRuns; i++ {
 			name := fmt.Sprintf("gen:%d:%d", r.u64()%1000000, 10+r.intn(50))
+			if *flagMode == "lit" {
+				name += ":lit"
+			}
 			m, err := genSource(name).Build()
 			if err != nil {
 				fmt.Printf("; %s: %v\n", name, err)
 				continue
 			}
+			unset, named := 0, 0
+			for _, f := range m.Funcs {
+				for _, b := range f.Blocks {
+					for _, in := range b.Insts {
+						rv := reflect.ValueOf(in).Elem().FieldByName("Typ")
+						if rv.IsValid() && rv.IsNil() {
+							unset++
+							if n, ok := in.(interface{ Name() string }); ok && n.Name() != "" {
+								named++
+							}
+						}
+					}
+				}
+			}
+			fmt.Printf("; instructions with Typ unset: %d (named: %d)\n", unset, named)
 			fmt.Printf("; ---- %s\n%s\n", name, m.String())
 		}
 	}}
